@@ -176,7 +176,7 @@ def history(case, env, res, facts):
             res.violation("C04:rendered_width/height", "rendered_width/height %s != rendered_size %s" % ((im.rendered_width, im.rendered_height), out), dict(case, ops=ops[:]))
 
     for step in range(case["steps"]):
-        op = rnd.choice(["set_wh", "set_w", "set_h", "set_enum", "size_enum", "size_tuple", "width=", "height=", "resize", "resize", "ratio", "render", "read", "read"])
+        op = rnd.choice(["set_wh", "set_w", "set_h", "set_enum", "size_enum", "size_tuple", "width=", "height=", "resize", "resize", "ratio", "render", "render_fails", "read", "read"])
         ops.append(op)
         if op == "set_wh":
             w, h = rnd.randint(1, 300), rnd.randint(1, 200)
@@ -222,6 +222,16 @@ def history(case, env, res, facts):
             apply_env(env, facts, logu(rnd, 1, 300), logu(rnd, 1, 100), cw, ch, None)
         elif op == "ratio":
             apply_env(env, facts, *facts.term, *(facts.cell or (0, 0)), rnd.choice([0.5, 1.0, rnd.uniform(0.1, 4), "DYNAMIC", "FIXED"]))
+        elif op == "render_fails":
+            # a draw that is refused after the size has been worked out (a style-specific
+            # parameter nobody knows): the size *setting* is what it was
+            try:
+                im.draw(no_such_parameter=1)
+                res.violation("C04:exception", "draw(no_such_parameter=1) did not raise", dict(case, ops=ops[:]))
+            except Exception:
+                pass
+            env.take()
+            res.count("draws refused inside histories")
         elif op == "render":
             # only render when it is cheap: small fixed sizes or small dynamic results
             rs = im.rendered_size
